@@ -711,6 +711,10 @@ func (c *container) SetCPUPeriod(value int64) {
 }
 
 func (c *container) SetCpusetCpus(value string) {
+	if value == "" {
+		// NRI cannot convey an empty cpuset (empty means no change).
+		return
+	}
 	switch req := c.getPendingRequest().(type) {
 	case *nri.ContainerAdjustment:
 		req.SetLinuxCPUSetCPUs(value)
@@ -728,6 +732,10 @@ func (c *container) SetCpusetCpus(value string) {
 }
 
 func (c *container) SetCpusetMems(value string) {
+	if value == "" {
+		// NRI cannot convey an empty memset (empty means no change).
+		return
+	}
 	switch req := c.getPendingRequest().(type) {
 	case *nri.ContainerAdjustment:
 		req.SetLinuxCPUSetMems(value)
